@@ -295,11 +295,15 @@ func (b *termBuilder) term(e ast.Expr) *Term {
 		switch x := e.(type) {
 		case *ast.Ident:
 			if c, ok := b.info.Uses[x].(*types.Const); ok {
-				return mk("const", objQual(c))
+				t := mk("const", objQual(c))
+				t.Obj = c
+				return t
 			}
 		case *ast.SelectorExpr:
 			if c, ok := b.info.Uses[x.Sel].(*types.Const); ok {
-				return mk("const", objQual(c))
+				t := mk("const", objQual(c))
+				t.Obj = c
+				return t
 			}
 		case *ast.CallExpr:
 			// conversion of a named constant, e.g. string(oidc.GrantTypeCode)
